@@ -26,15 +26,17 @@ type C05Op struct {
 
 type C05Scenario struct {
 	Seed  uint64  `json:"seed"`
+	Ctr   uint64  `json:"ctr"` // frame counter the stream starts at
 	Msgs  []int   `json:"msgs"` // plaintext lengths
 	Ops   []C05Op `json:"ops"`
 	Chunk int     `json:"chunk"`
 }
 
-var c05Kinds = []string{"flip", "trunc", "drop", "dup", "swap", "replay", "reflect", "xsess", "splice", "insert", "lenbit", "tagbit"}
+var c05Kinds = []string{"flip", "trunc", "drop", "dup", "swap", "replay", "reflect", "xsess", "splice", "insert", "lenbit", "tagbit", "xctr", "xctr"}
 
 func genC05(rt *rapid.T) interface{} {
 	sc := &C05Scenario{Seed: rapid.Uint64().Draw(rt, "seed"), Chunk: rapid.IntRange(0, 4).Draw(rt, "chunk")}
+	sc.Ctr = rapid.SampledFrom(interestingCounters).Draw(rt, "ctr")
 	n := rapid.IntRange(1, 4).Draw(rt, "nmsg")
 	for i := 0; i < n; i++ {
 		switch rapid.IntRange(0, 3).Draw(rt, "lk") {
@@ -81,14 +83,26 @@ func runC05(t *testing.T, sci interface{}) *Outcome {
 	}
 	_, c2a := ref.SessionKeys(shared)
 	_, c2aOther := ref.SessionKeys(other)
-	var ctr, ctrO uint64
+	ctr, ctrO := sc.Ctr, sc.Ctr
+	if sc.Ctr != 0 {
+		if !hccrypto.VerifSetCounters(acc, sc.Ctr, sc.Ctr) {
+			o.Harness = "VerifSetCounters: not a secure session"
+			return o
+		}
+		o.Stats["probe.high_counter"]++
+	}
+	var frameCtr []uint64 // counter of each original frame
 	var frames [][]byte // original frames, in order
 	var plains [][]byte // plaintext per frame
 	var otherFrames [][]byte
 	for _, l := range sc.Msgs {
 		p := make([]byte, l)
 		rng.Read(p)
+		c0 := ctr
 		fs := splitFrames(ref.FrameSeal(c2a, &ctr, p))
+		for k := range fs {
+			frameCtr = append(frameCtr, c0+uint64(k))
+		}
 		frames = append(frames, fs...)
 		otherFrames = append(otherFrames, splitFrames(ref.FrameSeal(c2aOther, &ctrO, p))...)
 		rest := p
@@ -160,6 +174,16 @@ func runC05(t *testing.T, sci interface{}) *Outcome {
 		case "reflect":
 			if len(reflected) > 0 {
 				tam[a] = append([]byte(nil), reflected[op.B%len(reflected)]...)
+			}
+		case "xctr":
+			// the same plaintext sealed for a counter 2^32 (or 2^8, 2^16) away: a replay from far in the past or future
+			if a < len(plains) && a < len(frameCtr) {
+				d := []uint64{1 << 32, 1 << 32, 1 << 8, 1 << 16, 1 << 33}[op.B%5]
+				c := frameCtr[a] + d
+				if op.B%2 == 1 {
+					c = frameCtr[a] - d
+				}
+				tam[a] = ref.FrameSeal(c2a, &c, plains[a])
 			}
 		case "xsess":
 			tam[a] = append([]byte(nil), otherFrames[a%len(otherFrames)]...)
